@@ -1191,3 +1191,7 @@ Definition check_case11 (u : option tree) (ls : list tree) (v0 r0 : int) (es : l
   let s0 := load_all (fresh u ls 1000) in
   Uint63.eqb (hash (ser_opt (view s0))) v0 && Uint63.eqb (restart_hash s0) r0 &&
   check_run11 s0 v0 (upper_hash s0) es rs.
+
+(* layer-kind pattern cases (no operations): union predicate and model = implementation in one evaluation *)
+Definition check_pattern (u : option tree) (ls : list tree) (v0 : int) : bool :=
+  check_union u ls v0 && check_case u ls v0 [].
